@@ -241,6 +241,12 @@ func panicSite(stderr string) (string, bool) {
 	return "", false
 }
 
+// lifetimePanic recognises the test build's "lived for 120 seconds" panics,
+// which are a limit of the harness configuration, never a property violation.
+func lifetimePanic(stderr string) bool {
+	return strings.Contains(stderr, "lived for longer than 120 seconds") || strings.Contains(stderr, "client was not closed during testing")
+}
+
 func panicMessage(stderr string) string {
 	i := strings.Index(stderr, "panic: ")
 	if i < 0 {
@@ -280,8 +286,8 @@ func singleRun(bin string, prop string, rec *ViolationRecord, strict bool, outDi
 		return nil, o.exit, o.stderr
 	default:
 		site, ok := panicSite(o.stderr)
-		if !ok {
-			return nil, o.exit, o.stderr
+		if !ok || lifetimePanic(o.stderr) {
+			return nil, 96, o.stderr
 		}
 		v := *rec
 		v.Rule = prop + ".panic"
@@ -679,8 +685,12 @@ func check(prop, tier string, seed int64, replay string, budget time.Duration, w
 	sort.Slice(results, func(i, j int) bool { return results[i].Run < results[j].Run })
 
 	if len(harnessErr) > 0 {
-		for _, e := range harnessErr {
-			fmt.Println("HARNESS-ERROR:", e)
+		for i, e := range harnessErr {
+			if i >= 2 {
+				fmt.Printf("HARNESS-ERROR: ... and %d more workers\n", len(harnessErr)-2)
+				break
+			}
+			fmt.Println("HARNESS-ERROR:", lastN(e, 2500))
 		}
 		return 2
 	}
@@ -771,8 +781,8 @@ func singleRunSeeded(bin, prop string, rec *ViolationRecord, outDir, name string
 		return nil, o.exit, o.stderr
 	}
 	site, ok := panicSite(o.stderr)
-	if !ok {
-		return nil, o.exit, o.stderr
+	if !ok || lifetimePanic(o.stderr) {
+		return nil, 96, o.stderr
 	}
 	v := *rec
 	v.Rule = prop + ".panic"
